@@ -58,6 +58,13 @@ type Prop struct {
 
 var registry = map[string]*Prop{}
 
+// Subcommands are extra process entry points of the verifctl binary (child processes that a
+// property needs to kill, e.g. the crashing writer of C03): verifctl <name> <args...>.
+var Subcommands = map[string]func(args []string) int{}
+
+// SelfBinary returns the verifctl binary of the given build variant.
+func SelfBinary(variant string) string { return binFor(variant) }
+
 func Register(p *Prop) {
 	if _, dup := registry[p.ID]; dup {
 		panic("duplicate property " + p.ID)
@@ -92,17 +99,17 @@ type Violation struct {
 
 // Result is what a worker reports per case.
 type Result struct {
-	Idx          int              `json:"idx"`
-	Variant      string           `json:"variant"`
-	Verdict      string           `json:"verdict"` // held | violated | inconclusive | harness_error
-	Reason       string           `json:"reason,omitempty"`
-	Nontrivial   []string         `json:"nontrivial,omitempty"` // distinct keys (hashes)
-	Counters     map[string]int64 `json:"counters,omitempty"`
-	Sets         map[string]map[string]int64 `json:"sets,omitempty"`
-	Sample       any              `json:"sample,omitempty"`
-	Violations   []Violation      `json:"violations,omitempty"`
-	Emit         map[string]string `json:"emit,omitempty"` // values for supervisor-side (cross-process) oracles
-	WallMs       int64            `json:"wall_ms,omitempty"`
+	Idx        int                         `json:"idx"`
+	Variant    string                      `json:"variant"`
+	Verdict    string                      `json:"verdict"` // held | violated | inconclusive | harness_error
+	Reason     string                      `json:"reason,omitempty"`
+	Nontrivial []string                    `json:"nontrivial,omitempty"` // distinct keys (hashes)
+	Counters   map[string]int64            `json:"counters,omitempty"`
+	Sets       map[string]map[string]int64 `json:"sets,omitempty"`
+	Sample     any                         `json:"sample,omitempty"`
+	Violations []Violation                 `json:"violations,omitempty"`
+	Emit       map[string]string           `json:"emit,omitempty"` // values for supervisor-side (cross-process) oracles
+	WallMs     int64                       `json:"wall_ms,omitempty"`
 }
 
 // Case is the per-case context handed to Prop.Run.
